@@ -370,9 +370,13 @@ class RefInt:
             return len(src.data) if isinstance(src, ArrObj) else len(src)
         if k is Call:
             vals = [self.ev(a) for a in e.args]
-            if isinstance(e.func, str):
-                return self.builtin(e.func, e, vals)
             f = e.func
+            if isinstance(f, str):
+                # a user function named by a string (recursive references inside hand-built programs): unique by name + arity
+                cands = [g for g in self.prog.funcs if g.name == f and len(g.params) == len(e.args)]
+                if len(cands) != 1:
+                    return self.builtin(f, e, vals)
+                f = cands[0]
             vals = [self.conv(v, a.t, p[1]) for v, a, p in zip(vals, e.args, f.params)]
             r = self.call(f, vals)
             return r
